@@ -263,4 +263,21 @@ CONFIG = {
         "quick": {"checks": 700, "shards": 8},
         "thorough": {"checks": 5000, "shards": 16, "timeout": 7200, "fuzz": [("FuzzCsvHeader", 60), ("FuzzCsvNoHeader", 60), ("FuzzJSON", 60)]},
     },
+    "C12": {
+        "race": True,
+        "rule": "rapid-generated scenarios: 0-6 assets, each with source days (increasing, gaps; 10% missing from the source) and a target that is unknown / empty / a prefix of the source "
+                "(last target date equals a source date: the +1 day boundary) / disjoint earlier / ahead of the source; explicit asset list or none (taken from the target); default start "
+                "date; workers 1-8; per-asset injected source-read and target-append faults; in-memory or file-system target; Delay 0; Sync run twice. Built with -race. Oracle: slice "
+                "model of the statement per requested, non-faulted asset (previous snapshots followed by the source's snapshots dated >= last target date + 1 day, or >= default start "
+                "when the target had none, in source order), faulted assets unchanged, returned error != nil iff a requested asset faulted or is missing from the source, second run "
+                "changes nothing and reports the same, final state and error status equal to those of a workers=1 replay, no race report. Non-trivial: >= 3 assets, >= 1 fault, "
+                "workers >= 2 and an asset on the +1-day boundary. Distinct = whole scenario.",
+        "technique": "property-based testing (rapid) with injected repository faults against a slice model, differential over worker counts, under the Go race detector",
+        "level_text": "Generated repository states, asset lists, fault subsets and worker counts are run through Sync twice and compared with a slice model of the statement (idempotence, +1-day boundary, default start, fault isolation, error reporting, worker independence), under the race detector. Worker interleavings are sampled, not enumerated.",
+        "level_note": "Faults of LastDate are not injected (the statement quantifies over read/append faults). Snapshot payloads encode (asset, day) so misplaced rows are visible.",
+        "assumptions": ["dates are whole days; the source is an in-memory repository behind a fault-injecting wrapper"],
+        "gomaxprocs": [16, 4],
+        "quick": {"checks": 600, "shards": 16},
+        "thorough": {"checks": 20000, "shards": 16, "timeout": 7200},
+    },
 }
